@@ -255,6 +255,7 @@ def series_cases(draw):
     union, explicit = draw(st.booleans()), draw(st.booleans())
     hier = draw(st.integers(0, 3)) == 3   # overlay inputs labelled by a two-level hierarchy
     rname = draw(st.sampled_from([None, 'res', ('r', 1)]))
+    first_full = draw(st.integers(0, 2)) == 2
     k = draw(st.sampled_from([2, 3, 1, 4]))
     n = draw(st.sampled_from([3, 2, 4, 1, 5, 6]))
     pool = draw(gen.flat_labels(n, draw(st.sampled_from(['str', 'int']))))
@@ -268,6 +269,14 @@ def series_cases(draw):
         kind = draw(st.sampled_from(['float64', 'object', 'int64', '<U3', 'bool']))
         if what == 'f_overlay':
             cpos = [p for p in range(3) if draw(st.booleans())] or [draw(st.integers(0, 2))]
+            if q == 0 and first_full:
+                # the first input covers every label (so it is overlaid as it is, keeping its blocks): a wide block without
+                # a missing cell next to a block with missing cells, in either order
+                pos, cpos = list(range(n)), [0, 1, 2]
+                clean = gen.to_array('float64', [float(10 * i + j) for i in range(n) for j in range(2)]).reshape(n, 2)
+                dirty = gen.to_array('float64', [float('nan') if draw(st.booleans()) else float(7 + i) for i in range(n)])
+                ins.append({'pos': pos, 'cpos': cpos, 'blocks': [clean, dirty] if draw(st.booleans()) else [dirty, clean]})
+                continue
             ins.append({'pos': pos, 'cpos': cpos, 'blocks': draw(gen.blocks(len(pos), len(cpos), kinds=('float64', 'object', 'int64'), missing=True))})
         else:
             ins.append({'pos': pos, 'values': draw(gen.column(kind, len(pos)))})
